@@ -68,7 +68,7 @@ theorem listener_progress (ops : List Op) : (listenerIter (run true ops)).1 = tr
   · rfl
 
 /-- the tree before the repair: deaf and spinning, and no operation ever repairs it -/
-theorem unfixed_wedges (f : Fault) (hf : f = .garbage ∨ f = .notEnvelope ∨ f = .oversize) (ops : List Op)
+theorem unfixed_wedges (f : Fault) (hf : f = .garbage ∨ f = .notEnvelope ∨ f = .oversize ∨ f = .oddSession) (ops : List Op)
     (hops : ∀ o ∈ ops, o = .send ∨ o = .listen) :
     (run false (.fault f :: ops)).wedged = true ∧ (listenerIter (run false (.fault f :: ops))).1 = false := by
   have key : ∀ (ops : List Op) (s : CL), (∀ o ∈ ops, o = .send ∨ o = .listen) → s.wedged = true →
@@ -83,7 +83,7 @@ theorem unfixed_wedges (f : Fault) (hf : f = .garbage ∨ f = .notEnvelope ∨ f
         unfold CL.wedged at h; simp at h; exact h.1
       rcases hall o (List.mem_cons_self ..) with rfl | rfl <;> simp [step, listenerIter, getOrBuild, hok, h]
   have h0 : (step false {} (.fault f)).wedged = true := by
-    rcases hf with rfl | rfl | rfl <;> decide
+    rcases hf with rfl | rfl | rfl | rfl <;> decide
   have hw := key ops _ hops h0
   refine ⟨hw, ?_⟩
   have hw' : (run false (.fault f :: ops)).wedged = true := hw
